@@ -161,6 +161,15 @@ HAND = [
     "O=C=O.[OH-]>>OC([O-])=O",
     "[Li]CCCC.O>>CCCC",
     "Cl.CN>>C[NH3+].[Cl-]",
+    # given molecules whose text starts with a marker the pipeline uses ('OO', '[H]') right after a dot
+    "CCBr.OOC(C)(C)C>>CCO.OOC(C)(C)C",
+    "CC(=O)Cl.CN.OOC>>CC(=O)NC.OOC",
+    "CCBr.[H]C(=O)O>>CCO.[H]C(=O)O",
+    "CC(=O)O.CCO.[H]C([H])=O>>CC(=O)OCC.[H]C([H])=O",
+    "CCO.OOCC>>CC=O.OOCC",
+    "CC=O.OOC(C)=O>>CC(=O)O.OOC(C)=O",
+    "CC(=O)OC.[H]C#N>>CC(=O)O.[H]C#N",
+    "C=C.[H]OO[H]>>CC.[H]OO[H]",
     # repeated molecules
     "CC(=O)O.CC(=O)O>>CC(=O)OC(C)=O",
     "CCO.CCO.CCO>>CCOCC",
